@@ -15,7 +15,7 @@ package shimagent
 //vsym:bound H07_partial_purge: 0..1 in-memory certificates and exactly two upstream identities (a certificate, then a certificate / plain key / the in-memory certificate), symbolic windows and clock, both modes; the underlying agent's first or second call after its List (a Remove of the purge, or the forwarded operation) fails; List / Signers / Sign: an operation that reports success hands out no certificate outside its window
 //vsym:bound H07_second_client: one in-memory hardware certificate over key 1 (symbolic window) and the plain key 1 in the underlying agent (optionally also a certificate with a symbolic window); while List runs, a second client of the underlying agent adds a certificate with a symbolic window, or removes the plain key, just before the shim's second or third call; both modes for the addition: the listing holds no certificate outside its window and (upstream mode) no hardware certificate next to a non-empty key list that lacks its key
 //vsym:bound H07_upstream3: no in-memory certificate, exactly three upstream identities (two certificates and a third certificate or plain key), symbolic windows and clock, both modes, List / Signers / Sign
-//vsym:bound H07_shim: pre-state under the representation invariant with 0..1 (thorough 0..2) in-memory certificates and 0..2 upstream identities (plain key of 2 possible keys, a certificate over either key, or the in-memory certificate itself also held upstream); every validity window and the clock symbolic; both modes; every map iteration order; the first (thorough: one of the first two) upstream call may fail; one operation from List / Signers / Sign
+//vsym:bound H07_shim: pre-state under the representation invariant with 0..1 in-memory certificates and 0..2 upstream identities (thorough also: 0..2 in-memory certificates with 0..1 upstream identities) (plain key of 2 possible keys, a certificate over either key, or the in-memory certificate itself also held upstream); every validity window and the clock symbolic; both modes; every map iteration order; the first (thorough: one of the first two) upstream call may fail; one operation from List / Signers / Sign
 
 import (
 	"time"
@@ -36,8 +36,17 @@ func h07MustAccept(c *ssh.Certificate) bool {
 
 func H07_shim() {
 	maxMem, maxUp := 1, 2
+	g07NFault = 2
 	if vThorough() {
-		maxMem, maxUp = 2, 2 // three upstream identities are covered by H07_upstream3
+		// two families beyond the quick bounds (their product does not finish
+		// within the tier's budget): a second in-memory certificate, or a
+		// fault at the second call of the underlying agent; three upstream
+		// identities are covered by H07_upstream3
+		if vChoose(2, "thorough-family") == 0 {
+			maxMem, maxUp = 2, 1
+		} else {
+			g07NFault = 3
+		}
 	}
 	h07Scenario(maxMem, maxUp, -1)
 }
@@ -204,6 +213,9 @@ func H07_second_client() {
 // the underlying agent's List fails (H07_partial_purge) or none does.
 var g07Fault bool
 
+// g07NFault: how many of the first calls of the underlying agent may fail (+1 for "none")
+var g07NFault int
+
 func h07Scenario(maxMem, maxUp, exactUp int) {
 	vMapOrderAll()
 	mwClock = vNondetI64("now")
@@ -254,9 +266,9 @@ func h07Scenario(maxMem, maxUp, exactUp int) {
 			mwUpCert(up, c, "c")
 		}
 	}
-	nFault := 2
-	if vThorough() {
-		nFault = 3
+	nFault := g07NFault
+	if nFault == 0 {
+		nFault = 2
 	}
 	if exactUp >= 0 {
 		nFault = 1
